@@ -255,9 +255,9 @@ def gen_pointer_text(r, seeds):
 
 def plan(tier, seed):
     q = tier == "quick"
-    specs = [{"kind": "query", "n": 3000 if q else 12000} for _ in range(9 if q else 30)]
-    specs += [{"kind": "pointer", "n": 2500 if q else 10000} for _ in range(3 if q else 8)]
-    specs += [{"kind": "patch", "n": 3000 if q else 12000} for _ in range(3 if q else 8)]
+    specs = [{"kind": "query", "n": 3000 if q else 40000} for _ in range(9 if q else 30)]
+    specs += [{"kind": "pointer", "n": 2500 if q else 30000} for _ in range(3 if q else 8)]
+    specs += [{"kind": "patch", "n": 3000 if q else 40000} for _ in range(3 if q else 8)]
     specs += [{"kind": "directed"}]
     return specs
 
